@@ -51,6 +51,12 @@ pub fn plan_of(codes: &[String]) -> ValidationPlan {
     plan
 }
 
+/// the codes of the rules of the REAL default plan, in its order (the "default plan" of the jobs is
+/// built from this list, so that a change to the default plan is seen by C01 / C02 / C03 / C12 too)
+pub fn default_codes() -> Vec<&'static str> {
+    default_rules_validation_plan().rules.iter().map(|r| r.error_code()).collect()
+}
+
 /// the owner named by a KnownArgumentNames message: the quoted `Type.field` or `@directive`
 /// (whatever the wording around it)
 fn info_of(e: &ValidationError) -> String {
@@ -225,7 +231,12 @@ pub fn run_validate13(schema: &s::Document, doc: &q::Document, codes: &[String])
     });
     out.push(format!("JSON {}", if json_ok { "ok" } else { "BAD" }));
     let dp: Vec<&str> = default_rules_validation_plan().rules.iter().map(|r| r.error_code()).collect();
-    out.push(format!("DEFAULTPLAN {}", if dp == ALL_RULES { "ok" } else { "BAD" }));
+    // each of the 24 implemented rules exactly once, in whatever order
+    let mut dp_sorted = dp.clone();
+    dp_sorted.sort();
+    let mut all_sorted: Vec<&str> = ALL_RULES.to_vec();
+    all_sorted.sort();
+    out.push(format!("DEFAULTPLAN {}", if dp_sorted == all_sorted { "ok" } else { "BAD" }));
     out
 }
 
